@@ -59,6 +59,14 @@ def parse_path_functions(repo):
             d = repo.resolve(fi.module, call.func, model.scope_locals(fi))
             tgt = repo.lookup(d) if d else None
             cands = []
+            f = call.func
+            if tgt is None and isinstance(f, ast.Attribute) and isinstance(
+                    f.value, ast.Name) and f.value.id in (
+                        'self', 'this', 'cls') and fi.cls is not None:
+                # a method of the same rules object
+                m = repo.find_method(fi.cls, f.attr)
+                if m is not None:
+                    cands.append((m, 'helper'))
             if isinstance(tgt, model.FuncInfo):
                 cands.append((tgt, 'helper'))
             elif isinstance(tgt, model.ClassInfo):
@@ -311,12 +319,54 @@ def under_lock(repo, fi, call):
                         fi.cls is not None:
                     for m, v in class_attr_origins(repo, fi.cls).get(
                             ce.attr, []):
-                        if isinstance(v, ast.Call) and repo.resolve(
-                                m.module, v.func) in LOCK_TYPES:
-                            if m.name == '__init__':
-                                return True
+                        if m.name == '__init__' and any(
+                                isinstance(x, ast.Call) and repo.resolve(
+                                    m.module, x.func) in LOCK_TYPES
+                                for x in ast.walk(v)):
+                            return True
         n = p
     return False
+
+
+def lock_attr_of(fi, call):
+    n = call
+    while n is not None and n is not fi.node:
+        p = getattr(n, '_parent', None)
+        if isinstance(p, ast.With):
+            for item in p.items:
+                ce = item.context_expr
+                if isinstance(ce, ast.Attribute) and isinstance(
+                        ce.value, ast.Name) and ce.value.id == 'self':
+                    return ce.attr
+        n = p
+    return None
+
+
+def lexer_sharing_constructions(repo, fi, lock_attr=None):
+    """Constructor calls of fi's class, in methods of that class, that pass
+    one of the instance's own attributes on (e.g. copy() handing
+    self._lexer to the new engine): [(method, call)]."""
+    out = []
+    if fi.cls is None:
+        return out
+    for name, m in fi.cls.methods.items():
+        if name == '__init__':
+            continue
+        for c in model.calls_in(m.node):
+            d = repo.resolve(m.module, c.func, model.scope_locals(m))
+            tgt = repo.lookup(d) if d else None
+            if tgt is not fi.cls and not (
+                    isinstance(c.func, ast.Call) and model.norm(
+                        c.func.func) == 'type'):
+                continue
+            passed = [a.attr for a in list(c.args) + [
+                k.value for k in c.keywords]
+                if isinstance(a, ast.Attribute) and isinstance(
+                    a.value, ast.Name) and a.value.id == 'self']
+            if any('lex' in x.lower() for x in passed) and not (
+                    lock_attr is not None and lock_attr in passed):
+                out.append((m, c))
+    return out
 
 
 def parse_sites(repo):
@@ -356,7 +406,19 @@ def check_lexer_per_call(repo, rep):
                    loc=fi.module.loc(call), construct=model.norm(call))
             continue
         if under_lock(repo, fi, call):
-            rep.ob('R01a', site, True, 'parse serialised by an engine lock',
+            # a per-instance lock serialises only the parses of that
+            # instance: it is enough only if no other instance is ever
+            # built around the same lexer object
+            sharers = lexer_sharing_constructions(
+                repo, fi, lock_attr_of(fi, call))
+            rep.ob('R01a', site, not sharers,
+                   'parse serialised by an engine lock' if not sharers else
+                   'the parse runs under a lock created per engine '
+                   'instance, but %s builds another engine around the same '
+                   'lexer object (`%s`) with a lock of its own: parses on '
+                   'the two engines are not serialised and share one '
+                   'cursor' % (sharers[0][0].qualname,
+                               model.norm(sharers[0][1])),
                    loc=fi.module.loc(call), construct=model.norm(call))
             continue
         # follow a @property to the backing attribute for the message
